@@ -9,7 +9,7 @@ EXPLANATION = "see DESIGN.md C14"
 
 
 def units(tier):
-    return A.U_ACTIVITY + [A.U_EPITHERMAL]
+    return A.U_ACTIVITY + [A.U_EPITHERMAL, A.U_ACCUMULATE, A.U_CALC_ACTIVATION]
 
 
 def runner_tasks(tier):
